@@ -108,6 +108,7 @@ func scenario(c *run.Ctx, idx int, fixed bool) {
 	// every third scenario: late registrations that become stable together with an empty block behind them
 	lateReg := idx%3 == 1 && !fixed
 	holdStable := 0 // > 0: this block is not stabilised on its own
+	var sideBeforeSnapshot *types.Block
 	for bi := 0; bi < nBlocks; bi++ {
 		t := cl.NextTime()
 		h := cl.Head.Height() + 1
@@ -176,12 +177,35 @@ func scenario(c *run.Ctx, idx int, fixed bool) {
 			break
 		}
 		// side fork on the same parent, a later slot
-		if bi >= 2 && r.Chance(1, 4) && !deputynode.IsSnapshotBlock(h) {
+		if bi >= 2 && (r.Chance(1, 4) || deputynode.IsSnapshotBlock(h+1)) && !deputynode.IsSnapshotBlock(h) {
 			t2 := t + uint32(cl.W.SlotMs/1000)
 			alt := cl.G.Next(t2, h, r.Range(1, 4))
 			if sb := step(c, cl, st, cl.Head, t2, alt, false); sb != nil {
 				c.Stat("side_fork_blocks", 1)
+				if deputynode.IsSnapshotBlock(h + 1) {
+					// the side fork reaches the snapshot height too (with another ranking at its parent): its snapshot block is
+					// built and checked on the same nodes right behind the main fork's
+					sideBeforeSnapshot = sb
+				}
 			}
+		}
+		if sideBeforeSnapshot != nil {
+			for _, n := range cl.Nodes {
+				if !n.BC.HasBlock(sideBeforeSnapshot.Hash()) || n.BC.StableBlock().Height() >= sideBeforeSnapshot.Height() {
+					sideBeforeSnapshot = nil // pruned meanwhile
+					break
+				}
+			}
+		}
+		if deputynode.IsSnapshotBlock(h) && sideBeforeSnapshot != nil {
+			t3 := sideBeforeSnapshot.Time() + uint32(cl.W.SlotMs/1000)
+			if t3 <= t {
+				t3 = t + 1
+			}
+			if sb := step(c, cl, st, sideBeforeSnapshot, t3, nil, false); sb != nil {
+				c.Stat("snapshot_blocks_on_a_side_fork", 1)
+			}
+			sideBeforeSnapshot = nil
 		}
 		shape := ""
 		for _, cd := range cands {
@@ -197,6 +221,9 @@ func scenario(c *run.Ctx, idx int, fixed bool) {
 		}
 		if holdStable > 0 && !cl.MustStabiliseSoon() {
 			continue
+		}
+		if sideBeforeSnapshot != nil && !cl.MustStabiliseSoon() {
+			continue // keep the side fork alive until its snapshot block has been built
 		}
 		if cl.MustStabiliseSoon() || forceRestart || r.Chance(1, 2) {
 			if !cl.StabiliseAll() {
